@@ -2,6 +2,7 @@ package unmarshal
 
 import (
 	"bytes"
+	"encoding/json"
 	"fmt"
 	"github.com/go-faster/city"
 	"github.com/go-faster/jx"
@@ -246,9 +247,21 @@ var DecodePushRequestStringV2 = Build(
 func encodeLabels(lbls [][]string) string {
 	arrLbls := make([]string, len(lbls))
 	for i, l := range lbls {
-		arrLbls[i] = fmt.Sprintf("%s:%s", strconv.Quote(l[0]), strconv.Quote(l[1]))
+		arrLbls[i] = fmt.Sprintf("%s:%s", jsonQuote(l[0]), jsonQuote(l[1]))
 	}
 	return fmt.Sprintf("{%s}", strings.Join(arrLbls, ","))
+}
+
+// jsonQuote renders s as a JSON string literal. strconv.Quote is not a JSON
+// encoder: it emits \a, \v, \x7f, \U0001f600 ... which JSON parsers reject.
+func jsonQuote(s string) string {
+	buf := bytes.Buffer{}
+	enc := json.NewEncoder(&buf)
+	enc.SetEscapeHTML(false)
+	if err := enc.Encode(s); err != nil {
+		return strconv.Quote(s)
+	}
+	return strings.TrimSuffix(buf.String(), "\n")
 }
 
 func fingerprintLabels(lbls [][]string) uint64 {
